@@ -394,6 +394,23 @@ class Engine(object):
                                   z3.Implies(z3.And(i >= 0, i < a.length), lsel(a.arr, i) == lsel(b.arr, i))))
         self.prims["list_same"] = GhostPrim("list_same", list_same)
 
+        def list_prefix_same(ex, a, b, n):
+            """the first n elements of a are the first n elements of b (goal position: skolemised index)"""
+            if isinstance(a, (PList, tuple)) and isinstance(b, (PList, tuple)):
+                xa = a.items if isinstance(a, PList) else list(a)
+                xb = b.items if isinstance(b, PList) else list(b)
+                nv = concrete_int(zint(n))
+                if nv is None:
+                    raise Unsupported("list_prefix_same with symbolic n on concrete lists")
+                r = ex.equals(PList(xa[:nv]), PList(xb[:nv]), None)
+                return r if isinstance(r, bool) else mk_bool(r)
+            if not ex.ctx.goal_mode:
+                raise Unsupported("list_prefix_same outside a goal")
+            i = ex.ctx.fresh("sk_p")
+            return mk_bool(z3.And(a.length >= zint(n), b.length >= zint(n),
+                                  z3.Implies(z3.And(i >= 0, i < zint(n)), lsel(a.arr, i) == lsel(b.arr, i))))
+        self.prims["list_prefix_same"] = GhostPrim("list_prefix_same", list_prefix_same)
+
         def is_list(ex, v):
             return isinstance(v, (PList, SList))
         self.prims["is_list"] = GhostPrim("is_list", is_list)
@@ -501,7 +518,18 @@ class Engine(object):
         return SList(n, ex.ctx.fresh(name + ".arr", ARR), kind, origin=None)
 
     def slist_elem(self, ex, l, pos):
-        return mk_int(lsel(l.arr, pos if z3.is_expr(pos) else z3.IntVal(pos)))
+        pos = pos if z3.is_expr(pos) else z3.IntVal(pos)
+        table = ex.ctx.__dict__.get("slist_table", {})
+        if table and z3.is_app_of(pos, z3.Z3_OP_ITE):
+            # the negative-index normalisation of a spec expression: settle it from the path condition
+            if not ex.ctx.feasible(pos.arg(0)):
+                pos = pos.arg(2)
+            elif not ex.ctx.feasible(z3.Not(pos.arg(0))):
+                pos = pos.arg(1)
+        e = z3.simplify(lsel(l.arr, z3.simplify(pos)))
+        if e.get_id() in table:
+            return table[e.get_id()]        # an element appended during this call: its structure is known
+        return mk_int(e)
 
     def slist_copy(self, ex, l):
         return SList(l.length, l.arr, l.kind)
@@ -513,6 +541,13 @@ class Engine(object):
             return None
         if name == "copy":
             return SList(l.length, l.arr, l.kind)
+        if name == "append" and len(args) == 1:
+            ex.note_write(l, stored=args[0])
+            ident = ex.ctx.fresh("elem")
+            ex.ctx.__dict__.setdefault("slist_table", {})[ident.get_id()] = args[0]
+            l.arr = z3.Store(l.arr, l.length, ident)
+            l.length = z3.simplify(l.length + 1)
+            return None
         raise Unsupported("method %s on a list of unknown length" % name)
 
     # stubs for models not built yet ------------------------------------------------
@@ -1152,7 +1187,14 @@ class Engine(object):
         if c.get("result_is"):
             named_posts = [("result-is", "result == (%s)" % c["result_is"])] + named_posts
         for (nm, e) in named_posts:
-            g = ex.spec_bool(e, env, goal=True)
+            try:
+                g = ex.spec_bool(e, env, goal=True)
+            except Raised:
+                # a clause that is not defined in this state: harmless only if its case cannot apply on this path
+                if when is not None and not ctx.feasible(when):
+                    ctx.emit("post", "%s/%s" % (pre, nm), True, None, note="case not applicable on this path")
+                    continue
+                raise
             if when is not None:
                 g = z3.Implies(when, g)
             ctx.emit("post", "%s/%s" % (pre, nm), g, None)
